@@ -320,6 +320,7 @@ def shared_state_fn(env):
                     if name in d])
         out.append([len(d) for d in mod_dicts])
         out.append(sys.getrecursionlimit())
+        out.append(simio.FS_EPOCH[0])
         out.append([list(h.values()) if isinstance(h, dict) else (list(h) if isinstance(h, list) else len(h))
                     for h in hidden])
         return out
